@@ -300,6 +300,75 @@ func (g *qGen) subSrc(w *qWorld) qSrc {
 	return qSrc{sql: sql, coq: coq, cols: names, tables: 1}
 }
 
+// A JOIN B USING (..) and A NATURAL JOIN B over two sources that share column names.  The model has no
+// USING: its meaning is spelled out here as the documented one - join on the equality of the named columns,
+// then one merged column per name (the left operand's, the right operand's for RIGHT joins, the other side's
+// value where that is NULL) followed by the remaining columns of both sides in their order - and the
+// implementation is compared with that.  The merged columns lose their table qualifier.
+func (g *qGen) usingSrc(w *qWorld) (qSrc, bool) {
+	l, r := g.tableSrc(w), g.tableSrc(w)
+	base := func(c string) string { return c[strings.Index(c, ".")+1:] }
+	var common [][2]int
+	for li, lc := range l.cols {
+		for ri, rc := range r.cols {
+			if base(lc) == base(rc) {
+				common = append(common, [2]int{li, ri})
+			}
+		}
+	}
+	if len(common) == 0 {
+		return qSrc{}, false
+	}
+	natural := g.r.Intn(3) == 0
+	using := common
+	if !natural {
+		g.r.Shuffle(len(using), func(i, j int) { using[i], using[j] = using[j], using[i] })
+		using = using[:1+g.r.Intn(len(using))]
+	}
+	kinds := [][3]string{{"JOIN", "JInner", "INNER"}, {"INNER JOIN", "JInner", "INNER"}, {"LEFT JOIN", "JLeft", "LEFT"}, {"LEFT OUTER JOIN", "JLeft", "LEFT OUTER"},
+		{"RIGHT JOIN", "JRight", "RIGHT"}, {"FULL JOIN", "JFull", "FULL"}, {"FULL OUTER JOIN", "JFull", "FULL OUTER"}}
+	k := kinds[g.r.Intn(len(kinds))]
+	nl := len(l.cols)
+	var names, conds, items []string
+	taken := map[int]bool{}
+	var cols []string
+	for _, u := range using {
+		li, ri := u[0], nl+u[1]
+		inc, alt := li, ri
+		if k[1] == "JRight" {
+			inc, alt = ri, li
+		}
+		taken[li], taken[ri] = true, true
+		names = append(names, base(l.cols[u[0]]))
+		conds = append(conds, fmt.Sprintf("(ECmp OpEq (ECol %d) (ECol %d))", li, ri))
+		items = append(items, fmt.Sprintf("SExpr (ECase None [(EIs false (ECol %d) (ELit VNull), ECol %d)] (Some (ECol %d)))", inc, alt, inc))
+		cols = append(cols, base(l.cols[u[0]]))
+	}
+	all := append(append([]string{}, l.cols...), r.cols...)
+	for i, c := range all {
+		if !taken[i] {
+			items = append(items, fmt.Sprintf("SExpr (ECol %d)", i))
+			cols = append(cols, c)
+		}
+	}
+	cond := conds[0]
+	for _, c := range conds[1:] {
+		cond = fmt.Sprintf("(EAnd %s %s)", cond, c)
+	}
+	var sql string
+	if natural {
+		nk := k[2]
+		if k[0] == "JOIN" {
+			nk = ""
+		}
+		sql = l.sql + " NATURAL " + strings.TrimSpace(nk+" JOIN") + " " + r.sql
+	} else {
+		sql = l.sql + " " + k[0] + " " + r.sql + " USING (" + strings.Join(names, ", ") + ")"
+	}
+	coq := fmt.Sprintf("(SrcSub (Q (BSelect (SrcJoin %s %s %s (Some %s)) None None None %s false) [] None None))", k[1], l.coq, r.coq, cond, coqList(items))
+	return qSrc{sql: sql, coq: coq, cols: cols, joins: 1, tables: 2}, true
+}
+
 var qJoinKinds = [][3]string{{"CROSS JOIN", "JCross", ""}, {"INNER JOIN", "JInner", "on"}, {"JOIN", "JInner", "on"}, {"LEFT JOIN", "JLeft", "on"},
 	{"LEFT OUTER JOIN", "JLeft", "on"}, {"RIGHT JOIN", "JRight", "on"}, {"FULL JOIN", "JFull", "on"}, {"FULL OUTER JOIN", "JFull", "on"}}
 
